@@ -52,7 +52,11 @@ def parse_rule_name(name):
 def enum_ob(name, ok, where='', **meta):
     return Obligation(name, True if ok else False, kind='enum', where=where, meta=meta)
 
-def work_logic(lname):
+def work_inherited(lname):
+    "the rule obligations of the rules a logic did not define itself (its module inherits them from another logic's module)"
+    return work_logic(lname, inherited_only=True)
+
+def work_logic(lname, inherited_only=False):
     """all C04 obligations of one logic; runs in a worker process. -> (results, functions)"""
     reg = RS.registry()
     logic = reg(lname)
@@ -70,6 +74,7 @@ def work_logic(lname):
         base = f'C04.{L}.{rc.__name__}'
         if kind in ('closure', 'access', 'predicate', 'other'):
             continue
+        if inherited_only and rc.__module__ == logic.Rules.__module__: continue
         # --- attrs
         want = parse_rule_name(rc.__name__)
         got = dict(operator=getattr(rc.operator, 'name', None), quantifier=getattr(rc.quantifier, 'name', None),
@@ -128,6 +133,7 @@ def work_logic(lname):
         if kind != 'quant-fat':
             add(enum_ob(base + '.branching', rc.branching == len(groups) - 1, where=where, branching=rc.branching, groups=len(groups),
                         cex=dict(branching=rc.branching, groups=len(groups))))
+    if inherited_only: return results, funcs
     # --- shape coverage: exactly one rule per compound shape the logic interprets
     sem = S.spec_of(L)
     des = (None,) if len(sem.values) == 2 else (True, False)
@@ -246,12 +252,64 @@ def _frame_work(lname):
                                         meta=dict(logic=lname, relations=n, frame=sem.frame, cex=(bad[0] if bad else None), cex_all=bad or None))))
     return results, funcs
 
+def replay_rule_world(L, rn):
+    "apply the real rule to its own kind of node at world 0 of a modal logic: every sentence node it adds carries a world"
+    from pytableaux.logics import registry
+    from pytableaux.proof import Tableau, sdwnode
+    from pytableaux.lang import Atomic, Predicate, Constant, Variable
+    logic = registry(L)
+    if not logic.Meta.modal: return dict(reproduced=None, detail='not a modal logic')
+    tab = Tableau(logic); rule = tab.rules.get(rn); rc = type(rule)
+    A, B = Atomic(0, 0), Atomic(1, 0)
+    if getattr(rc, 'operator', None) is not None:
+        op = rc.operator; s = op(A) if op.arity == 1 else op(A, B)
+    elif getattr(rc, 'quantifier', None) is not None:
+        x = Variable(0, 0); s = rc.quantifier(x, Predicate(0, 0, 1)(x))
+    else: return dict(reproduced=None, detail='not an operator or quantifier rule')
+    if rc.negated: s = ~s
+    b = tab.branch(); b.append(sdwnode(s, rc.designation, 0))
+    t = rule.target(b)
+    if not t: return dict(reproduced=None, detail='the rule has no target on its own node')
+    rule.apply(t)
+    bad = [dict(nd) for br in tab for nd in br if nd.get('sentence') is not None and nd.get('world') is None]
+    return dict(reproduced=bool(bad), detail=f'{L}.{rn} applied to {s} at world 0 adds world-less nodes {[str(d.get("sentence")) for d in bad]}' if bad else f'{L}.{rn}: every added node carries a world')
+
+def replay_frame_closure(L, rel):
+    "the real access rules of the logic driven to saturation on a real branch with exactly these access nodes"
+    from pytableaux.logics import registry
+    from pytableaux.proof import Tableau, anode, swnode
+    from pytableaux.lang import Atomic
+    logic = registry(L); sem = S.spec_of(L)
+    arules = [rc for rc in RS.rule_classes(logic) if RS.classify(rc) == 'access']
+    tab = Tableau(logic); b = tab.branch()
+    present = sorted({w for p in rel for w in p} | {0})
+    for w in present: b.append(swnode(Atomic(0, 0), w))
+    for (x, y) in rel: b.append(anode(x, y))
+    for _ in range(200):
+        for rc in arules:
+            rule = tab.rules.get(rc.__name__); t = rule.target(b)
+            if t: rule.apply(t); break
+        else: break
+    got = {(nd['world1'], nd['world2']) for nd in b if nd.get('world1') is not None}
+    if sem.frame == 'serial':
+        ws = {w for nd in b for w in nd.worlds()}
+        ok = all(any((w, v) in got for v in ws) for w in present) and set(rel) <= got; want = 'a successor for every sentence-carrying world'
+    elif sem.frame == 'any': ok = got == set(rel); want = sorted(rel)
+    else:
+        cl = S.closure(sem.frame, present, rel); ok = got == cl; want = sorted(cl)
+    return dict(reproduced=not ok, detail=f'{L}: access nodes {sorted(rel)} (a sentence at each world) saturate to {sorted(got)}; the {sem.frame} frame condition needs {want}')
+
 def replay(payload):
     """run the real rule on a real one-node branch and compare what it adds with the schema; evaluate the
     counterexample with the spec semantics"""
     meta = payload.get('meta') or {}
     cex = payload.get('counterexample')
     L, rn = meta.get('logic'), meta.get('rule')
+    if L and 'frame' in meta and isinstance(cex, dict) and 'relation' in cex:
+        return replay_frame_closure(L, [tuple(p) for p in cex['relation']])
+    if str(payload.get('obligation', '')).endswith('.world'):
+        parts = payload['obligation'].split('.')
+        return replay_rule_world(parts[-3], parts[-2])
     if L and rn and (meta.get('kind') != 'operator' or not isinstance(cex, dict)):
         return replay_by_search(L, rn)
     if not (L and rn):
